@@ -50,7 +50,7 @@ ASSUMPTIONS = [
     "template operands only in rotation numerators (what the instruction classes accept)",
 ]
 PROBES = ["deferred-commit", "precompiled-segment", "template-used", "flush-after-precompile", "nv-transpiler", "loop-in-precompiled",
-          "value-crosses-precompile", "regfuture-in-precompiled", "two-precompiled-segments"]
+          "value-crosses-precompile", "regfuture-in-precompiled", "two-precompiled-segments", "instantiated-more-than-once"]
 
 ALLOW = {"qblock", "qubit", "gate", "measure", "array", "loop", "loop-start-step", "rot", "add", "if", "empty-body", "regfuture"}
 
@@ -149,6 +149,36 @@ class System:
         return out
 
 
+def template_sites(sub: Any) -> List[Tuple[int, int, str]]:
+    return [(i, j, op.name) for i, ins in enumerate(sub.instructions) for j, op in enumerate(ins.operands)
+            if isinstance(op, Template)]
+
+
+def rehearse_rounds(sub: Any, app_id: int, rounds: List[Dict[str, int]], sample: Dict[str, Any]) -> None:
+    import copy
+
+    sites = template_sites(sub)
+    plain = [str(ins) for ins in sub.instructions]
+    for r, vals in enumerate(rounds):
+        c = copy.copy(sub)
+        try:
+            c.instantiate(app_id, dict(vals))
+        except Exception as e:  # noqa: BLE001
+            raise Violation("sdk", f"sdk-exception|instantiate-round|{type(e).__name__}", {"round": r, "error": str(e)[:200], **sample})
+        if len(c.instructions) != len(plain):
+            raise Violation("template", "template|round-changed-instruction-count", {"round": r, **sample})
+        for (i, j, name) in sites:
+            got = c.instructions[i].operands[j]
+            gv = getattr(got, "value", got)
+            if isinstance(got, Template) or gv != vals[name]:
+                raise Violation("template", "template|round-copy-carries-wrong-value",
+                                {"round": r, "instruction": i, "template": name, "got": str(got), "want": vals[name], **sample})
+        left = template_sites(sub)
+        if left != sites or [str(ins) for ins in sub.instructions] != plain:
+            raise Violation("template", "template|instantiating-a-copy-changed-the-compiled-subroutine",
+                            {"round": r, "templates_before": len(sites), "templates_after": len(left), **sample})
+
+
 def run(ch: Choices, opts: Dict[str, Any]) -> Dict[str, Any]:
     reset_globals()
     SimNetworkInfo.reset()
@@ -182,7 +212,9 @@ def run(ch: Choices, opts: Dict[str, Any]) -> Dict[str, Any]:
         gen.flush_stmt()
         # a compiled subroutine may be committed later: after the next segment's operations were issued
         defer = pre and si < n_seg - 1 and ch.flag(1, 3, "defer")
-        segments.append({"stmts": stmts, "precompile": pre, "values": values, "defer": defer})
+        rounds = [{nm: ch.draw(32, "rval") for nm in names} for _ in range(1 + ch.draw(2, "nrounds"))] \
+            if (pre and names and ch.flag(1, 3, "rounds")) else []
+        segments.append({"stmts": stmts, "precompile": pre, "values": values, "defer": defer, "rounds": rounds})
     faults: Dict[str, int] = {}
     probes: Dict[str, int] = {}
 
@@ -224,6 +256,11 @@ def run(ch: Choices, opts: Dict[str, Any]) -> Dict[str, Any]:
                 A.drain(sample)
             if seg["precompile"]:
                 sub = A.conn.compile()
+                if sub is not None and seg["values"] and seg.get("rounds"):
+                    # compile once, fill in several times: every (shallow) copy of the compiled subroutine takes its own
+                    # values, and the compiled original keeps its template operands for the next round
+                    rehearse_rounds(sub, A.conn.app_id, seg["rounds"], sample)
+                    bump(probes, "instantiated-more-than-once")
                 if sub is not None:
                     if seg["defer"]:
                         pending.append((sub, seg["values"]))
